@@ -174,7 +174,7 @@ theorem deleteBranch_wf {U : List Block} {c : Chain} (w : TreeWF U c) {nx : Nat}
   have old := deleteBranch_old w hn
   have back := deleteBranch_back w hn
   have hrootAlive : ¬ Desc c nx c.root := fun h => hx (Desc.root_only h)
-  refine ⟨?_, ?_, ?_, ?_, ?_⟩
+  refine ⟨?_, ?_, ?_, ?_, ?_, ?_, ?_⟩
   · obtain ⟨r, h1, h2, h3⟩ := w.root
     obtain ⟨r', g1, _, g2, g3, _⟩ := old _ _ h1 hrootAlive
     exact ⟨r', by rw [hr]; exact g1, by rw [g2]; exact h2, by rw [g3]; exact h3⟩
@@ -204,9 +204,23 @@ theorem deleteBranch_wf {U : List Block} {c : Chain} (w : TreeWF U c) {nx : Nat}
   · intro x n' hn' hxr
     rw [hr] at hxr
     obtain ⟨ha, n, h1, e1, _, e3, e4, _, _⟩ := back x n' hn'
-    obtain ⟨b0, hb0, g1, g2, g3, g4, s0, g5, g6⟩ := w.blk x n h1 hxr
-    exact ⟨b0, hb0, g1, by rw [e1]; exact g2, by rw [e3]; exact g3, by rw [e4]; exact g4, s0,
-      by rw [store_deleteBranch_alive w hn x ha]; exact g5, g6⟩
+    obtain ⟨b0, hb0, g1, g2, g3, gd⟩ := w.blk x n h1 hxr
+    refine ⟨b0, hb0, g1, by rw [e1]; exact g2, by rw [e3]; exact g3, fun htc => ?_⟩
+    obtain ⟨g4, s0, g5, g6⟩ := gd (by rw [← e4]; exact htc)
+    exact ⟨by rw [e4]; exact g4, s0, by rw [store_deleteBranch_alive w hn x ha]; exact g5, g6⟩
+  · intro x n' hn' h0
+    obtain ⟨ha, n, h1, _, _, _, e4, _, _⟩ := back x n' hn'
+    rw [store_deleteBranch_alive w hn x ha]
+    exact w.hdr x n h1 (by rw [← e4]; exact h0)
+  · intro x n' hn' hxr htc
+    rw [hr] at hxr
+    obtain ⟨ha, n, h1, e1, _, _, e4, _, _⟩ := back x n' hn'
+    obtain ⟨p, h2, h3⟩ := w.anc x n h1 hxr (by rw [← e4]; exact htc)
+    have hpa : ¬ Desc c nx n.parent := fun hd => ha (Desc.step h1 hxr hd)
+    obtain ⟨p', g1, _, _, _, g5, _⟩ := old _ _ h2 hpa
+    refine ⟨p', by rw [e1]; exact g1, ?_⟩
+    unfold HasData at h3 ⊢
+    rw [e1, hr, g5]; exact h3
   · intro k s h
     by_cases ha : Desc c nx k
     · rw [store_deleteBranch_dead w hn k ha] at h; cases h
@@ -237,17 +251,19 @@ theorem deleteBranch_spec {U : List Block} {c : Chain} (w : TreeWF U c) {nx : Na
     (hn : getNode c nx = some nxt) (hx : nx ≠ c.root) :
     TreeWF U (deleteBranch c nx) ∧ (deleteBranch c nx).nodes.length < c.nodes.length ∧
     (∀ x n, getNode c x = some n → ¬ Desc c nx x →
-      ∃ n', getNode (deleteBranch c nx) x = some n' ∧ n'.parent = n.parent ∧ n'.height = n.height ∧ n'.bits = n.bits) ∧
+      ∃ n', getNode (deleteBranch c nx) x = some n' ∧ n'.parent = n.parent ∧ n'.height = n.height ∧ n'.bits = n.bits ∧
+        n'.txCount = n.txCount) ∧
     (∀ x n', getNode (deleteBranch c nx) x = some n' →
-      ∃ n, getNode c x = some n ∧ n'.parent = n.parent ∧ n'.height = n.height ∧ n'.bits = n.bits) ∧
+      ∃ n, getNode c x = some n ∧ n'.parent = n.parent ∧ n'.height = n.height ∧ n'.bits = n.bits ∧
+        n'.txCount = n.txCount) ∧
     (∀ k s, alookup k c.store = some s → ¬ Desc c nx k → alookup k (deleteBranch c nx).store = some s) := by
   refine ⟨deleteBranch_wf w hn hx, deleteBranch_length w hn, ?_, ?_, ?_⟩
   · intro x n h ha
-    obtain ⟨n', g1, g2, g3, g4, _⟩ := deleteBranch_old w hn x n h ha
-    exact ⟨n', g1, g2, g3, g4⟩
+    obtain ⟨n', g1, g2, g3, g4, g5, _⟩ := deleteBranch_old w hn x n h ha
+    exact ⟨n', g1, g2, g3, g4, g5⟩
   · intro x n' h
-    obtain ⟨_, n, g1, g2, g3, g4, _⟩ := deleteBranch_back w hn x n' h
-    exact ⟨n, g1, g2, g3, g4⟩
+    obtain ⟨_, n, g1, g2, g3, g4, g5, _⟩ := deleteBranch_back w hn x n' h
+    exact ⟨n, g1, g2, g3, g4, g5⟩
   · intro k s h ha
     rw [store_deleteBranch_alive w hn k ha]; exact h
 
